@@ -155,6 +155,7 @@ func init() {
 			{Name: "files", TShards: 4, Run: c03Files},
 			{Name: "flags", Run: c03Flags},
 			{Name: "long", TShards: 4, Run: c03Long},
+			{Name: "sizes", TShards: 6, Run: c03Sizes},
 		},
 	})
 }
@@ -403,5 +404,46 @@ func c03Long(c *Ctx) {
 			k.Count("records_roundtripped", int64(nr))
 			k.Nontrivial(text.Bytes())
 		})
+	}
+}
+
+// c03Sizes sweeps Seq/Qual lengths densely around the points where the
+// written line crosses multiples of the usual buffer sizes.
+func c03Sizes(c *Ctx) {
+	spans := [][2]int{{1900, 2200}}
+	if c.Thorough {
+		spans = [][2]int{{1900, 2200}, {3950, 4250}, {8050, 8250}, {32600, 32900}}
+	}
+	idx := int64(0)
+	for _, sp := range spans {
+		for l := sp[0]; l <= sp[1]; l++ {
+			c.Case(idx, func(k *K) {
+				r := k.Rand()
+				first := genSAM(r)
+				first.Seq, first.Qual = string(longText(r, l, nil)), string(longText(r, l, nil))
+				second := genSAM(r)
+				k.Input("seq_len", l)
+				var ms []func() ([]byte, error)
+				var ws []func(io.Writer) error
+				var want []item
+				for _, rec := range []*sam.SAM{first, second} {
+					ms = append(ms, rec.MarshalText)
+					ws = append(ws, rec.Write)
+					want = append(want, item{Key: samKey(rec)})
+				}
+				text := heldMarshalCheck(k, ms, ws)
+				if n := bytes.Count(text, []byte("\n")); n != 2 {
+					k.Failf("one-line", "two records written as %d lines", n)
+				}
+				got, over := collect(codecByName("sam").seq(bytes.NewReader(text)), 5)
+				if over || !sameTrace(got, want) {
+					k.Failf("roundtrip", "records around a buffer-size boundary decoded differently:\n got  %.800s\n want %.800s", traceString(got), traceString(want))
+				}
+				k.Count("records_roundtripped", 2)
+				k.Count("size_sweep_cases", 1)
+				k.Nontrivial([]byte(fmt.Sprint(l)), text[:min(64, len(text))])
+			})
+			idx++
+		}
 	}
 }
